@@ -83,6 +83,14 @@ def programs(tier):
     # attributes named in i18n:attributes that the element does not have: appended in the order of the statement
     add('translation-only-attributes', doc(el('img', static=[['src', 'a.png']], attributes=[['width', py('w')]],
                                               i18n_attributes='title; alt; longdesc; width; summary')), [['w', 'int', 0]])
+    # implicit translation (interpolated attribute text; a message object in a CDATA section) under an enclosing
+    # i18n:target / i18n:domain: the settings of the enclosing element apply
+    add('implicit-attribute-interpolated-under-target', doc(el('div', el('img', static=[['title', ['By ', I('site')]], ['alt', 'Logo']]),
+                                                               i18n_target="'de'", i18n_domain='dd', i18n_context='cc')),
+        [['site', 'int', 0]], options={'implicit_i18n_attributes': ['alt', 'title']})
+    add('message-object-under-target', doc(el('div', {'cdata': [' ', I('m'), ' ']}, el('p', I('m')), el('q', 'x', content=['text', py('m')]),
+                                              el('r', 'x', static=[['title', ['t ', I('m')]]]),
+                                              i18n_target="'de'", i18n_domain='dd', i18n_context='cc')), [['m', 'msg', 0]])
     add('implicit-and-explicit', doc(el('img', static=[['alt', ['Logo of ', I('site')]], ['title', 'T']],
                                         i18n_attributes='alt; title')),
         [['site', 'int', 0]], options={'implicit_i18n_attributes': ['alt', 'title']})
